@@ -157,6 +157,7 @@ def main(argv):
             if m.get("reuse"):
                 # a Module object may be instantiated more than once: the first instance is thrown away
                 wasm.instantiate(module, {k: dict(v) for k, v in imports.items()}, target=target)
+                del log[:]      # host calls of the discarded instance's start function
             inst = wasm.instantiate(module, imports, target=target)
             ev = {"id": m["id"], "ev": "inst", "v": "ok"}
             if before is not None:
